@@ -19,6 +19,8 @@ def check(ctx):
     provrules.rule_pseudo_spans(ctx, facts, "R1")
     provrules.rule_amend_routes(ctx, facts, "R2")
     provrules.rule_mount(ctx, facts, "R3")
+    from .. import scopes
+    scopes.rule_scope_always_opened(ctx, facts, "R6")
     c = collector.Collector(ctx, facts)
     if c.need("R4"):
         collector.rule_danglings_arg(ctx, c, "R4")
